@@ -52,7 +52,7 @@ theorem exact_of_built (hB : Built inp P) (hD : FactRelD P.userProds P.prods P.s
   have h1 := verifyPart1_ok hB.hV
   constructor
   · rintro ⟨fuel, t, h⟩
-    obtain ⟨hn, hd, _, hy⟩ := parse_sound_of_rel hB (factRel_of_D h1 hD) hsu raw hEnd fuel t h
+    obtain ⟨hn, hd, _, hy⟩ := parse_sound_of_rel hB.core (factRel_of_D h1 hD) hsu raw hEnd fuel t h
     exact ⟨t, hd, hn, hy⟩
   · intro hL
     have hs : P.start ∉ P.suffix := fun h => hD.sufNotUser _ h hsu
@@ -72,19 +72,19 @@ theorem reject_of_built (hB : Built inp P) (hD : FactRelD P.userProds P.prods P.
     (hnot : ¬ InLang P.terminals P.userProds P.start (P.tokens raw).dropLast) :
     ∃ k, ∀ fuel, k ≤ fuel → P.parse raw fuel = .error .parsingError := by
   have h1 := verifyPart1_ok hB.hV
-  obtain ⟨k, hk⟩ := parse_terminates_of_built hB hnd raw
+  obtain ⟨k, hk⟩ := parse_terminates_of_built hB.core hnd raw
   refine ⟨k, fun fuel hf => ?_⟩
   have hsuf : endSym ∉ P.suffix := fun h => h1.endNoKey (hD.sufKeys _ h)
   cases hres : P.parse raw fuel with
   | ok t =>
     exfalso
-    obtain ⟨hn, hd, _, hy⟩ := parse_sound_of_rel hB (factRel_of_D h1 hD) hsu raw hEnd fuel t hres
+    obtain ⟨hn, hd, _, hy⟩ := parse_sound_of_rel hB.core (factRel_of_D h1 hD) hsu raw hEnd fuel t hres
     exact hnot ⟨t, hd, hn, hy⟩
   | error e =>
     rcases run_error_cases fuel _ e hres with he | he | he
     · subst he; exact absurd hres (hk fuel hf)
     · subst he; rfl
-    · subst he; exact absurd hres (parse_no_stuck_of_built hB hnd hsuf raw fuel)
+    · subst he; exact absurd hres (parse_no_stuck_of_built hB.core hnd hsuf raw fuel)
 
 end Top
 end LL
